@@ -3,7 +3,17 @@
 TLC_BASE = ["TLC 1.8 (tla2tools) incl. its -dump / -simulate output", "harness/tlaval.py value parser",
             "numpy element-wise arithmetic on small integers (exact in float64)"]
 
+LINOP = ("linop_algebra", "linop", "run")
+LINOP_RULE = ("one case per distinct top-of-stack entry (operator expression built through the API calls the spec recorded) or rejected constructor call "
+              "reached by TLC in LinopAlgebra.tla; non-trivial = the entry's exact matrix is not an identity matrix (or the case is a rejected call)")
+LINOP_ASSUME = ["bounds: atom catalogue and MaxStack/MaxLevel/MaxFlat of the themed MC_Linop_*.tla configurations (see checker_cmd)",
+                "entries over Z[i]; flat sizes <= 16 (quick) / 24 (thorough)", "CPU numpy backend only"]
+
 PROPS = {
+    "C01": {"level": "model_checking", "engines": [LINOP], "rule": LINOP_RULE, "assumptions": LINOP_ASSUME, "trusted": TLC_BASE},
+    "C02": {"level": "model_checking", "engines": [LINOP, ("index_maps", "index_maps", "run")], "rule": LINOP_RULE, "assumptions": LINOP_ASSUME, "trusted": TLC_BASE},
+    "C03": {"level": "model_checking", "engines": [LINOP], "rule": LINOP_RULE, "assumptions": LINOP_ASSUME, "trusted": TLC_BASE},
+    "C04": {"level": "model_checking", "engines": [LINOP], "rule": LINOP_RULE, "assumptions": LINOP_ASSUME, "trusted": TLC_BASE},
     "C09": {
         "level": "model_checking",
         "engines": [("index_maps", "index_maps", "run")],
@@ -18,11 +28,28 @@ PROPS = {
 HOOK_COMMITS = []
 
 ENGINES = [
+    {"name": "linop_algebra", "path": "harness/engines/linop.py + spec/LinopAlgebra.tla (CMat, ElementMaps, Shape)", "serves_properties": ["C01", "C02", "C03", "C04"],
+     "kind_free_text": "TLC exhaustive over sessions with the linop API (themes atoms/algebra/stack) + S->C replay of every distinct entry and rejected call"},
     {"name": "index_maps", "path": "harness/engines/index_maps.py + spec/IndexMaps.tla", "serves_properties": ["C09", "C02"],
      "kind_free_text": "TLC exhaustive enumeration of calls + S->C replay of every dumped state on the real functions"},
 ]
 
+_LINOP_NOTE = ("Trusted: TLC, the dump parser, the harness builder (spec api tree -> constructor calls) and the dense-matrix probe. "
+               "Exact tier covers the index/broadcast/matmul/blocks/stack classes over Z[i]; FFT, NUFFT, Wavelet, Interpolate, Convolve and the MRI factories are "
+               "bound by their own engines (see C05-C10, C16) and join the algebra in the opaque tier when built. GPU/MPI paths not run.")
 MANIFEST_TEXT = {
+    "C01": {"text": "TLC checks AdjShapes/AdjCorrect/AdjInvolution for every operator expression reachable in LinopAlgebra.tla (mechanism AdjRule transcribed from each _adjoint_linop against exact matrices over Z[i]); every dumped entry is rebuilt on the real classes and dense(A.H) is compared with dense(A)^H, A.H.H with A, shapes swapped.",
+            "design_ref": "DESIGN.md sections 4, 5 C01", "note": _LINOP_NOTE,
+            "technique": "TLA+ operator-algebra spec, TLC exhaustive over themed catalogues + spec-to-code replay (dense matrix probing)"},
+    "C02": {"text": "Same sessions as C01: for every entry linearity over C (i*e_j columns, a*x+y with complex a), bitwise determinism before/after .H/.N caching, byte purity of inputs and captured arrays, real-typed input against the exact matrix; plus purity of the rearrangement functions in the IndexMaps replay.",
+            "design_ref": "DESIGN.md sections 4, 5 C02", "note": _LINOP_NOTE + " Prox objects and remaining public array functions: see the prox/trace engines once listed under engines.",
+            "technique": "TLA+ operator-algebra spec + replay with byte snapshots and repeated application"},
+    "C03": {"text": "MatOf of composites is DEFINED as the matrix expression (product, sum, conjugate, block row/column/diagonal along the axis); TLC checks shape soundness and that rejected calls leave the session unchanged; every dumped entry's dense matrix and advertised shapes are compared with the spec, and every spec-rejected constructor call must raise on the real classes.",
+            "design_ref": "DESIGN.md sections 4, 5 C03", "note": _LINOP_NOTE,
+            "technique": "TLA+ operator-algebra spec (stack machine over the linop API), TLC exhaustive + replay incl. rejected calls"},
+    "C04": {"text": "TLC checks NormalCorrect (NrmRule transcribed from every _normal_linop shortcut, incl. the block-tiling conditions) against ConjT(m).m; replay compares dense(A.N) with dense(A)^H dense(A) for every entry, block strides swept over overlapping / tiling / gapped / non-dividing.",
+            "design_ref": "DESIGN.md sections 4, 5 C04", "note": _LINOP_NOTE + " The NUFFT Toeplitz tolerance clause is decided by the nufft engine (when listed).",
+            "technique": "TLA+ operator-algebra spec, TLC exhaustive + replay of A.N against probed A^H A"},
     "C09": {
         "text": "TLC enumerates every (function, parameter) call of IndexMaps.tla in the bounds, checks 11 algebraic laws on the model, and every dumped state is replayed on the real function with labelled complex and real arrays (element-by-element equality, output shape, input bytes). Exhaustive within the bounds; the maps are index calculus, so small extents exercise every branch (odd/even, pad/crop, overlap/gap/remainder).",
         "design_ref": "DESIGN.md section 5 C09",
@@ -32,4 +59,4 @@ MANIFEST_TEXT = {
 }
 
 NOT_APPLICABLE = {p: "check not built yet in this round (planned, see DESIGN.md section 5)" for p in
-                  ["C01", "C02", "C03", "C04", "C05", "C06", "C07", "C08", "C10", "C11", "C12", "C13", "C14", "C15", "C16", "C17", "C18", "C19", "C20"]}
+                  ["C05", "C06", "C07", "C08", "C10", "C11", "C12", "C13", "C14", "C15", "C16", "C17", "C18", "C19", "C20"]}
